@@ -1,7 +1,286 @@
 package main
 
-type caseOutcome struct {
-	Name string `json:"name"`
+import (
+	"encoding/json"
+	"fmt"
+	"os"
+	"sort"
+	"strings"
+
+	"github.com/metrico/qryn/reader/logql/logql_parser"
+	"github.com/metrico/qryn/reader/logql/logql_transpiler_v2/clickhouse_planner"
+)
+
+// ---------------------------------------------------------------------------------------------------------------
+// Abstract cases enumerated by TLC from Replan.tla (query class x execution number, with the expected outcome):
+// concretised from seeded pools, run on the real planners, observed outcome reported per case; the calls of two
+// interleaved plan objects are written as a trace that TLC validates against Replan.tla.
+// ---------------------------------------------------------------------------------------------------------------
+
+type absQuery struct {
+	Kind string `json:"kind"`
+	Op   string `json:"op"`
+	Text string `json:"text"`
+	Attr string `json:"attr"`
 }
 
-func (r *runner) runCases(path string) {}
+type absCase struct {
+	Q        absQuery `json:"q"`
+	K        int      `json:"k"`
+	Diverges bool     `json:"diverges"`
+	Writes   []string `json:"writes"`
+}
+
+type caseOutcome struct {
+	Q         absQuery `json:"q"`
+	K         int      `json:"k"`
+	Concrete  string   `json:"concrete"`
+	Entry     string   `json:"entry"`
+	Diverges  bool     `json:"diverges"`
+	Class     string   `json:"class"`
+	Writes    []string `json:"writes"`
+	Signature string   `json:"signature,omitempty"`
+}
+
+// the fields Replan.tla models (its constant Fields)
+var modelled = map[string]bool{
+	"LineFilterPlanner.Val": true, "FingerprintFilterPlanner.FingerprintSelectWithCache": true, "MainFinalizerPlanner.Alias": true,
+	"ByWithoutPlanner.LabelsCache": true, "LineFormatPlanner.formatStr": true,
+	"AttrConditionPlanner.sqlConds": true, "AttrConditionPlanner.where": true, "AttrConditionPlanner.AggregatedAttr": true,
+}
+
+func modelledWrites(ws []fieldWrite) []string {
+	set := map[string]bool{}
+	for _, w := range ws {
+		if modelled[w.Field] {
+			set[w.Field] = true
+		}
+	}
+	out := []string{}
+	for k := range set {
+		out = append(out, k)
+	}
+	sort.Strings(out)
+	return out
+}
+
+var textPool = map[string][]string{
+	"lit":     {`plain`, `ab`, `x1`, `it's`},
+	"esc":     {`a\\.b`, `\\[x\\]`, `\\^x`, `a\\+b`, `a\\|b`},
+	"escfix":  {`a\\-b`, `100\\%`},
+	"fold":    {`(?i)ab`, `(?i)plain`},
+	"foldesc": {`(?i)a\\.b`},
+	"rx":      {`a|b`, `x[0-9]+$`, `a.b`},
+}
+
+var attrPool = map[string][]string{
+	"p0":       {`x`},
+	"p1":       {`.x`, `span.x`, `resource.x`},
+	"p2":       {`.span.x`, `span.span.x`, `resource.span.x`},
+	"duration": {`duration`},
+}
+
+// lineFormatSpec: a clickhouse_planner.LineFormatPlanner object driven directly (no entry point of the reader
+// reaches it: logql_transpiler_v2.Plan moves every line_format to the in-process stages).
+func lineFormatSpec(tpl string) *spec {
+	return &spec{Lang: "logql", Entry: "unreachable_LineFormatPlanner", Query: `{a="b"} | line_format "` + tpl + `"`, Make: func() (subject, error) {
+		script, err := logql_parser.Parse(`{a="b"}`)
+		if err != nil {
+			return nil, err
+		}
+		main, err := clickhouse_planner.Plan(script, false)
+		if err != nil {
+			return nil, err
+		}
+		pl := &clickhouse_planner.LineFormatPlanner{Main: main, Template: tpl}
+		return &sqlPlan{root: pl, planner: pl, opts: clusterOpts}, nil
+	}}
+}
+
+func (r *runner) concretise(q absQuery) []*spec {
+	var out []*spec
+	switch q.Kind {
+	case "sel":
+		out = append(out, logSpec(`{a="b"}`), logSpec(`{a="b", c!="d"}`))
+	case "lf":
+		for _, t := range textPool[q.Text] {
+			out = append(out, logSpec(fmt.Sprintf(`{a="b"} %s "%s"`, q.Op, t)))
+		}
+	case "bw":
+		out = append(out, logSpec(`sum by (a) (rate({a="b"}[1m]))`), logSpec(`sum(count_over_time({a="b"} |= "x" [1m])) without (c)`),
+			logSpec(`avg(rate({a="b"}[1m])) by (a)`))
+	case "lfmt":
+		out = append(out, lineFormatSpec("x{{.a}}y"), lineFormatSpec("{{.c}}"))
+	case "ac":
+		if q.Attr == "none" {
+			out = append(out, tracePortionSpec(`{.a="b"}`), tracePortionSpec(`{.a="b"} | count() > 1`))
+		} else {
+			for _, a := range attrPool[q.Attr] {
+				cmp := "> 60"
+				if a == "duration" {
+					cmp = "> 1s"
+				}
+				out = append(out, tracePortionSpec(fmt.Sprintf(`{.a="b"} | max(%s) %s`, a, cmp)))
+			}
+		}
+	}
+	return out
+}
+
+func (r *runner) runCases(path string) {
+	raw, err := os.ReadFile(path)
+	if err != nil {
+		fmt.Fprintln(os.Stderr, "cases:", err)
+		os.Exit(2)
+	}
+	var cases []absCase
+	if err := json.Unmarshal(raw, &cases); err != nil {
+		fmt.Fprintln(os.Stderr, "cases:", err)
+		os.Exit(2)
+	}
+	// distinct query classes, in a stable order
+	seen := map[absQuery]bool{}
+	var qs []absQuery
+	for _, c := range cases {
+		if !seen[c.Q] {
+			seen[c.Q] = true
+			qs = append(qs, c.Q)
+		}
+	}
+	sort.Slice(qs, func(i, j int) bool {
+		return fmt.Sprint(qs[i]) < fmt.Sprint(qs[j])
+	})
+	wins := windowsA()
+	type conc struct {
+		q absQuery
+		s *spec
+	}
+	var all []conc
+	for _, q := range qs {
+		for _, s := range r.concretise(q) {
+			all = append(all, conc{q, s})
+		}
+	}
+	r.res.Stats["case_classes"] = len(qs)
+	r.res.Stats["case_concrete_queries"] = len(all)
+	// every concrete query: one plan object executed 3 times, interleaved with the plan object of another class
+	// (the next one in a seeded order); the calls are the trace
+	perm := r.rng.Perm(len(all))
+	slot := 0
+	tr := func(ev map[string]any) {
+		if r.trace != nil {
+			b, _ := json.Marshal(ev)
+			r.trace.Write(append(b, '\n'))
+		}
+	}
+	for i := 0; i < len(perm); i += 2 {
+		pair := []conc{all[perm[i]]}
+		if i+1 < len(perm) {
+			pair = append(pair, all[perm[i+1]])
+		}
+		subs := make([]subject, len(pair))
+		fresh := make([][]*arm, len(pair))
+		okPair := true
+		for j, c := range pair {
+			r.setup(c.s)
+			sub, err := c.s.Make()
+			if err != nil {
+				r.res.PlanErrors["case:"+c.s.id()] = err.Error()
+				okPair = false
+				break
+			}
+			fa, err := r.freshArms(c.s, "A", wins)
+			if err != nil {
+				okPair = false
+				break
+			}
+			subs[j], fresh[j] = sub, fa
+		}
+		if !okPair {
+			continue
+		}
+		for j, c := range pair {
+			tr(map[string]any{"ev": "New", "p": j + 1, "q": c.q, "concrete": c.s.Query})
+		}
+		var order []int
+		for j := range pair {
+			order = append(order, j, j, j)
+		}
+		r.rng.Shuffle(len(order), func(a, b int) { order[a], order[b] = order[b], order[a] })
+		ks := make([]int, len(pair))
+		priors := make([][]fieldWrite, len(pair))
+		for _, j := range order {
+			c := pair[j]
+			k := ks[j]
+			a := subs[j].process(r.x, wins[k], k+1, true)
+			v := r.x.compareArms(a, fresh[j][k])
+			div := v.Class == "MEANING" || v.Class == "ERROR"
+			name := fmt.Sprintf("%s %s %s %s", c.q.Kind, c.q.Op, c.q.Text, c.q.Attr)
+			mode := "case"
+			if strings.HasPrefix(c.s.Entry, "unreachable") {
+				mode = "unreachable"
+			}
+			before := len(r.res.Findings)
+			r.report(c.s, mode, "A", k+1, wins[k], v, a, fresh[j][k], nil, priors[j], strings.TrimSpace(name))
+			sig := ""
+			if len(r.res.Findings) > before {
+				sig = r.res.Findings[len(r.res.Findings)-1].Signature
+				if mode == "unreachable" {
+					// dead code: kept as an observation, not a finding
+					r.res.Unreachable = append(r.res.Unreachable, r.res.Findings[len(r.res.Findings)-1])
+					r.res.Findings = r.res.Findings[:before]
+				}
+			}
+			mw := modelledWrites(a.Writes)
+			r.res.Cases = append(r.res.Cases, caseOutcome{Q: c.q, K: k + 1, Concrete: c.s.Query, Entry: c.s.Entry, Diverges: div, Class: v.Class, Writes: mw, Signature: sig})
+			tr(map[string]any{"ev": "Process", "p": j + 1, "k": k + 1, "writes": mw, "same": !div})
+			priors[j] = append(priors[j], a.Writes...)
+			ks[j]++
+			slot++
+		}
+		for j := range pair {
+			tr(map[string]any{"ev": "Drop", "p": j + 1})
+		}
+	}
+	r.res.Stats["case_calls"] = slot
+}
+
+// probeFields: which of the fields modelled by Replan.tla do the real Process calls write? (the specification's
+// Mutates constant is generated from this)
+func (r *runner) probeFields() {
+	var qs []absQuery
+	qs = append(qs, absQuery{Kind: "sel"}, absQuery{Kind: "bw"}, absQuery{Kind: "lfmt"})
+	for _, op := range []string{"|=", "!=", "|~", "!~"} {
+		for t := range textPool {
+			qs = append(qs, absQuery{Kind: "lf", Op: op, Text: t})
+		}
+	}
+	for _, a := range []string{"p0", "p1", "p2", "duration", "none"} {
+		qs = append(qs, absQuery{Kind: "ac", Attr: a})
+	}
+	set := map[string]bool{}
+	for _, q := range qs {
+		for _, s := range r.concretise(q) {
+			r.setup(s)
+			sub, err := s.Make()
+			if err != nil {
+				r.res.PlanErrors["probe:"+s.id()] = err.Error()
+				continue
+			}
+			r.x.DB.dry = true
+			for k, w := range windowsA() {
+				a := sub.process(r.x, w, k+1, true)
+				r.noteWrites(s, a)
+				for _, f := range modelledWrites(a.Writes) {
+					set[f] = true
+				}
+			}
+			r.x.DB.dry = false
+			r.res.Stats["probed_plans"]++
+		}
+	}
+	for f := range set {
+		r.res.Mutates = append(r.res.Mutates, f)
+	}
+	sort.Strings(r.res.Mutates)
+}
